@@ -82,6 +82,12 @@ func cmdConcColl(o *Out, line string, f []string) {
 	old := runtime.GOMAXPROCS(procs)
 	defer runtime.GOMAXPROCS(old)
 	inner := &loggingCollector{Collector: ftdc.NewDynamicCollector(64)} // many small chunks make every observer Resolve expensive under the race detector
+	if (atoi64(f[5])/3)%2 == 1 {
+		// a collector that hands out the bytes it rendered itself (the dynamic collector copies chunk by chunk): what an
+		// observer holds must stay what it was while others add and resolve
+		inner = &loggingCollector{Collector: ftdc.NewBaseCollector(G*M + 16)}
+		o.count("conc-coll-inner-base")
+	}
 	ctx, cancel := context.WithCancel(context.Background())
 	defer cancel()
 	var c ftdc.Collector = ftdc.NewSynchronizedCollector(inner)
